@@ -6,6 +6,7 @@ import WowVerif.Model.DateTime
 import WowVerif.Model.Flag
 import WowVerif.Model.Enum
 import WowVerif.Model.Frame
+import WowVerif.Model.FrameExpect
 import WowVerif.Model.Geometry
 import WowVerif.Model.SemIO
 import WowVerif.Model.SemSize
@@ -332,6 +333,41 @@ def seqFrames (e : Exp) (d : Dir) (api : Api) (lens : List Nat) : String :=
           go fuel r rest (acc ++ s!" {got.length}{if got == bd then "" else "!"}@{stream.length - rest.length}")
         | .error msg => acc ++ s!" then {msg} at ?"
     go (bodies.length + 1) bodies stream "ok"
+
+/-! ## the expect helpers asked for another type (Model/FrameExpect.lean, Thm/C02b.lean) -/
+open Frame in
+def otherOp (d : Dir) : Nat := match d with | .server => 0x1DD | .client => 0x1DC      -- SMSG_PONG / CMSG_PING
+
+open Frame in
+def rframeOther (e : Exp) (d : Dir) (hdr : List UInt8) (len fill extra : Nat) : String :=
+  let body := patBody len fill
+  let stream := hdr ++ body ++ List.replicate extra 0xEE
+  match expectFrame (otherOp d) e d stream with
+  | .ok (.other op size, rest) => s!"err opcode {op} {size} consumed={stream.length - rest.length}"
+  | .ok (.got _, rest) => s!"err unexpected-ok consumed={stream.length - rest.length}"
+  | .error _ => "err io"
+
+open Frame in
+/-- every second message is asked for as another type -/
+def seqFramesOther (e : Exp) (d : Dir) (lens : List Nat) : String :=
+  let bodies := (List.range lens.length).zip lens |>.map fun (i, l) => patBody l i
+  match writeAll e d (bodies.map fun bd => (wardenOp d, bd)) with
+  | none => "write-failed ?"
+  | some stream =>
+    let wants := (List.range bodies.length).map fun i => if i % 2 == 1 then otherOp d else wardenOp d
+    match expectN e d wants stream with
+    | .error _ => "ok then err io at ?"
+    | .ok (rs, rest) =>
+      -- positions: re-run call by call to report where each call left the stream
+      let rec go (fuel : Nat) (ws : List Nat) (bds : List (List UInt8)) (cur : List UInt8) (acc : String) : String :=
+        match fuel, ws, bds with
+        | fuel + 1, w :: ws', bd :: bds' =>
+          match expectFrame w e d cur with
+          | .ok (.got got, r) => go fuel ws' bds' r (acc ++ s!" {got.length}{if got == bd then "" else "!"}@{stream.length - r.length}")
+          | .ok (.other _ _, r) => go fuel ws' bds' r (acc ++ s!" skip@{stream.length - r.length}")
+          | .error _ => acc ++ " then err io at ?"
+        | _, _, _ => acc ++ s!" end={stream.length}"
+      if rs.length == bodies.length && rest.isEmpty then go (bodies.length + 1) wants bodies stream "ok" else "ok then short"
 
 /-! ## geometry -/
 /-- decimal text -> Float (sign, digits, optional fraction, optional exponent) -/
@@ -748,6 +784,14 @@ def handle (ws : List String) : String :=
       match parseExp e, parseDir d, len.toNat?, fill.toNat? with
       | some e, some d, some len, some fill => wframe e d len fill
       | _, _, _, _ => "bad-op"
+  | ["rframe", e, d, "expectother", hdr, len, fill, extra] =>
+      match parseExp e, parseDir d, unhex hdr, len.toNat?, fill.toNat?, extra.toNat? with
+      | some e, some d, some hdr, some len, some fill, some extra => rframeOther e d hdr len fill extra
+      | _, _, _, _, _, _ => "bad-op"
+  | ["seq", e, d, "expectother", lens] =>
+      match parseExp e, parseDir d, (lens.splitOn ",").mapM (·.toNat?) with
+      | some e, some d, some lens => seqFramesOther e d lens
+      | _, _, _ => "bad-op"
   | ["rframe", e, d, api, hdr, len, fill, extra] =>
       match parseExp e, parseDir d, parseApi api, unhex hdr, len.toNat?, fill.toNat?, extra.toNat? with
       | some e, some d, some api, some hdr, some len, some fill, some extra => rframe e d api hdr len fill extra
